@@ -315,4 +315,18 @@ theorem getValue_represents : ∀ (t : Ty), RepresentsP t := by
       | arr xs => cases xs <;> simp [getValue] at hok ⊢ <;> simp [represents]
       | obj ks vs => simp [getValue] at hok ⊢ <;> simp [represents]
 
+theorem allSome_spec {α} : ∀ (l : List (Option α)) (r : List α), allSome l = some r →
+    r.length = l.length ∧ ∀ (i : Nat) (x : α), r[i]? = some x → l[i]? = some (some x)
+  | [], r, h => by simp only [allSome, Option.some.injEq] at h; subst h; simp
+  | none :: _, _, h => by simp [allSome] at h
+  | some a :: l, r, h => by
+    simp only [allSome, Option.map_eq_some_iff] at h
+    obtain ⟨r', hr', rfl⟩ := h
+    obtain ⟨hl, hi⟩ := allSome_spec l r' hr'
+    refine ⟨by simp [hl], ?_⟩
+    intro i x hx
+    cases i with
+    | zero => simpa using hx
+    | succ i => simpa using hi i x (by simpa using hx)
+
 end Octo.Files
